@@ -65,8 +65,15 @@ def run_shards(prop, specs, shard_timeout, workers=None):
                 # inside an assert must not be something a property depends on
                 flags = ["-O"] if spec.get("python_O", i % 2 == 1) and "replay" not in spec else \
                     (["-O"] if isinstance(spec.get("replay"), dict) and spec["replay"].get("python_O") else [])
+                shard_env = dict(env, PYTHONHASHSEED=hs)
+                rep = spec.get("replay") if isinstance(spec.get("replay"), dict) else None
+                ascii_io = (rep.get("ambient") or {}).get("ascii_io") if rep else (i % 5 == 4)
+                if ascii_io and os.environ.get("VERIF_AMBIENT") != "plain":
+                    # every fifth shard: an interpreter whose default text encoding is ASCII (the plain C locale without
+                    # UTF-8 mode) - code that opens text files without naming the encoding behaves differently there
+                    shard_env.update(LC_ALL="C", LANG="C", PYTHONUTF8="0", PYTHONCOERCECLOCALE="0")
                 p = subprocess.Popen([PYTHON, *flags, "-u", "-B", "-m", "vlib.worker", prop, spec_path, out_path],
-                                     cwd=VERIF_DIR, env=dict(env, PYTHONHASHSEED=hs), stdout=errf,
+                                     cwd=VERIF_DIR, env=shard_env, stdout=errf,
                                      stderr=subprocess.STDOUT, start_new_session=True)
                 running[i] = (p, time.monotonic(), out_path, err_path, errf, spec)
             time.sleep(0.05)
